@@ -265,8 +265,7 @@ ENC_HARNESSES = [
 
 
 def run_group(run, runner, group):
-    for h, prefix, expect in group:
-        runner.check(h, prefix, expect=expect)
+    runner.check_many([dict(harness=h, prefix=prefix, expect=expect) for h, prefix, expect in group])
 
 
 # ---- decoder: T2 (round trip, exact consumption), T5, T3 ----------------------------
